@@ -24,7 +24,7 @@ SHARDS = 2
 RULE = (
     "signatures = all valid sequences of <= 3 parameters over kinds {positional-only, positional-or-"
     "keyword, *var, keyword-only, **var} x default/no default, names x,y,z with at most one parameter "
-    "renamed to one of {self, logger, action_type, include_args, result, _serializers}; plain functions "
+    "renamed to one of {self, cls, logger, action_type, include_args, result, _serializers, f, args, kwargs, fields}; plain functions "
     "and methods; body returns a tuple of its locals (or raises); calls = all splits of 0..n+1 argument "
     "values into positional and keyword (by every parameter name) + an unknown keyword; options = "
     "{bare, action_type=, include_args= each subset (incl. self) and an invalid name, include_result=False}; plus one decorator "
@@ -37,7 +37,7 @@ ASSUMPTIONS = [
 ]
 
 KINDS = ["po", "pk", "va", "ko", "vk"]  # positional-only, pos-or-kw, *args, kw-only, **kwargs
-SPECIAL = ["self", "logger", "action_type", "include_args", "result", "_serializers", "cls"]
+SPECIAL = ["self", "logger", "action_type", "include_args", "result", "_serializers", "cls", "f", "args", "kwargs", "fields"]
 
 
 class BodyError(Exception):
